@@ -2,7 +2,7 @@
    option, unit, list, prod, sumbool map to OCaml's; nat, positive, N, Z stay
    inductive).  The entry points fix the generated tables. *)
 From Coq Require Import Extraction ExtrOcamlBasic.
-From YV Require Import PyBase CharTables Tables Html Replace Checks ShellMap Json Reports Include.
+From YV Require Import PyBase CharTables Tables Html Replace Checks ShellMap Json Reports Include Token Utils Scanner Rpal PState Parser Expand Math Exec Catalogue Tex2txt.
 
 Definition m_replace_phrases := replace_phrases py_isspace py_isalpha py_word.
 Definition m_finditer := finditer py_isalpha py_word.
@@ -18,10 +18,16 @@ Definition m_map_match_position := map_match_position.
 Definition m_run_assemble := run_assemble py_isspace.
 
 Definition m_file_list := file_list.
+Definition m_scan := scan scan_parms_py.
+Definition m_rpal := remove_pure_action_lines py_isspace.
+Definition m_get_txt_pos := get_txt_pos.
+Definition m_run_parse (nosp : bool) :=
+  run_parse (if nosp then with_nosp py_tables tbl_nosp_skip tbl_nosp_macros
+             else py_tables).
 Definition m_generate_html :=
   generate_html py_isalpha py_word sh_highlight_style sh_highlight_style_unsure
                 sh_number_style.
 Definition m_protect_html := protect_html.
 
-Extraction "../_build/model.ml" m_generate_html m_protect_html m_file_list m_run_report m_map_match_position m_run_assemble m_replace_phrases m_finditer m_parse_rule
+Extraction "../_build/model.ml" m_run_parse m_scan m_rpal m_get_txt_pos m_generate_html m_protect_html m_file_list m_run_report m_map_match_position m_run_assemble m_replace_phrases m_finditer m_parse_rule
   m_single_letter_matches m_equation_messages m_create_context.
